@@ -75,11 +75,26 @@ async def _run_history(S, srv, history):
 
     tr = S.UDSServerTransport(srv, TargetURI("tcp://127.0.0.1:1"))
     answers = []
-    last_seed = b""
     for item in history:
-        if item.startswith("key:"):
-            # SendKey with the seed received last (the server accepts the identity as key)
-            req = bytes([0x27, int(item[4:], 16)]) + last_seed
+        if item.startswith("unlock:"):
+            # RequestSeed (sf-1) followed by SendKey (sf) with the seed just received (the server accepts the identity
+            # as key).  The seed is fresh by design, so this one request of the history differs between processes; an
+            # empty seed would turn the SendKey into a different (malformed) request, so the seed is re-requested until
+            # it is non-empty.  Only the SendKey answer is recorded.
+            sf = int(item[7:], 16)
+            key = b"\x00\x00\x00"
+            try:
+                for _ in range(64):
+                    ans, _t = await tr.handle_request(bytes([0x27, sf - 1]))
+                    if ans is None or len(ans) < 2 or ans[0] != 0x67:
+                        break
+                    if len(ans) > 2:
+                        key = bytes(ans[2:])
+                        break
+            except Exception as e:
+                answers.append("EXC:" + type(e).__name__)
+                continue
+            req = bytes([0x27, sf]) + key
         else:
             req = bytes.fromhex(item)
         try:
@@ -87,14 +102,12 @@ async def _run_history(S, srv, history):
         except Exception as e:  # must be the same exception class everywhere
             answers.append("EXC:" + type(e).__name__)
             continue
-        if ans is not None and len(ans) >= 2 and ans[0] == 0x67 and ans[1] % 2 == 1:
-            last_seed = bytes(ans[2:])
         answers.append(mask_answer(req, ans))
     return answers
 
 
 def transcript(S, cfg, clock_base=0.0, history=None):
-    """cfg = {"seed": int, "params": {...RandomnessParameters kwargs...}, "history": [hex | "key:<sf>"]}"""
+    """cfg = {"seed": int, "params": {...RandomnessParameters kwargs...}, "history": [hex | "unlock:<sf>"]}"""
     S.time = Clock(clock_base)
     P = S.RandomUDSServer.RandomnessParameters(**cfg["params"])
     srv = S.RandomUDSServer(cfg["seed"], P)
